@@ -212,7 +212,7 @@ func runSeq(ctx *core.Ctx, p *seqProp) {
 				if r.ref.OK() {
 					ctx.AddState(stateKey(u.opt, r.ref.Doc))
 					if len(ops) < p.Depth && len(ops) > 0 {
-						for _, nx := range Sigma(r.ref.Doc, p.alpha(len(ops))) {
+						for _, nx := range SigmaFrom(r.ref.Doc, p.alpha(len(ops)), u.doc) {
 							if ctx.Expired() {
 								ctx.Cap("internal deadline reached inside a work unit")
 								return
